@@ -255,6 +255,7 @@ package cache
 //@ extern strconv.Itoa(i)
 //@   pure
 //@   ensures len(result) >= 1
+//@   ensures result == itoa(i)
 
 //@ extern io.NopCloser(r)
 //@   pure
